@@ -27,6 +27,7 @@ var plans = map[string]map[string]tierPlan{
 	"default": {"quick": {24000, 240}, "thorough": {600000, 2400}},
 	"C08":     {"quick": {8000, 240}, "thorough": {200000, 2400}},
 	"C10":     {"quick": {6000, 240}, "thorough": {150000, 2400}},
+	"C19":     {"quick": {10000, 240}, "thorough": {300000, 2400}},
 }
 
 func planFor(prop, tier string) tierPlan {
